@@ -98,6 +98,24 @@ func genC12(seed uint64, idx int, tier string) *Plan {
 	if idx%4 == 3 {
 		return genAdv(seed, idx, tier)
 	}
+	if idx%16 == 9 {
+		// the last octets of the message are an address-hint parameter whose
+		// length is not a whole number of addresses (nothing follows it: the
+		// decoder reads from a buffer that ends with the message)
+		key := uint16(4 + 2*((idx/16)%2))
+		n := core.Pick(r, []int{1, 2, 3, 5, 6, 7, 8, 12, 20, 24, 28, 36, 40})
+		if key == 4 && n%4 == 0 {
+			n++
+		}
+		svc := &simdoh.Svc{Priority: 1, ALPN: []string{"h2"}, Extra: []simdoh.SvcParam{{Key: key, Value: core.Bytes(r, n)}}}
+		if core.Chance(r, 1, 2) {
+			svc.ALPN = nil
+		}
+		m := &simdoh.Msg{Flags: 0x8180, Question: []simdoh.Question{{Name: "a.test", Type: simdoh.TypeHTTPS, Class: 1}},
+			Answer: []simdoh.RR{{Name: "a.test", Type: simdoh.TypeHTTPS, TTL: 60, Target: ".", Svc: svc}}}
+		body, _ := m.Encode(simdoh.EncodeOpts{})
+		return &Plan{Kind: "bytes", Seed: seed, Bytes: &BytesPlan{Body: body, Host: "a.test", QType: simdoh.TypeHTTPS, CacheOff: core.Chance(r, 1, 2), Note: fmt.Sprintf("address hint (key %d) of %d octets at the end of the message", key, n)}}
+	}
 	if idx%4 == 1 {
 		// a well-formed response with an OPT record full of options of every
 		// small size (EDNS options a client may look at: extended errors,
@@ -240,6 +258,12 @@ func genAdv(seed uint64, idx int, tier string) *Plan {
 	nl := 300
 	for i := 0; i < nl; i++ {
 		p.Long = append(p.Long, genAdvLong(r, s))
+	}
+	// labels that hold the octet the text form uses as separator (a name that
+	// comes out of the decoder is put into the next query)
+	for _, l := range [][]byte{{1, '.'}, {2, '.', 'a'}, {2, 'a', '.'}, {3, 'a', '.', '.'}, {3, '.', '.', 'b'}, {2, '.', '.'}, {5, 'a', '.', '.', 'b', '.'}} {
+		nm := append(append([]byte(nil), l...), 4, 't', 'e', 's', 't', 0)
+		p.Long = append(p.Long, nm, append([]byte{1, 'x'}, nm...))
 	}
 	p.Stride = 16
 	if tier == "thorough" {
